@@ -74,7 +74,10 @@ def gen_scenario(rng, sid):
           "frame0": make_frame(cols, n0, rng, kvals, jvals), "offsets0": offsets(n0, old_rgs),
           "prior": [], "frame1": make_frame(cols, n1, rng, kvals + ([5] if rng.random() < 0.3 else []), jvals + (["n"] if rng.random() < 0.3 else [])),
           "offsets1": offsets(n1, new_parts), "new_parts": new_parts,
-          "compression": rng.choice([None, None, "GZIP"]), "stats": rng.choice(["auto", True, False])}
+          "compression": rng.choice([None, None, "GZIP"]), "stats": rng.choice(["auto", True, False]),
+          # how the dataset is ADDRESSED by the append (absolute path / relative to the working directory / './' / 'file://' URL) and
+          # what open_with is: the recorder's plain callables, or the bound open() of an fsspec file system object
+          "addr": rng.choice(["abs", "abs", "rel", "dot", "url"]), "opener": rng.choice(["callable", "fs"])}
     for _ in range(rng.choice([0, 0, 1, 2])):          # earlier successful appends: part numbers beyond the first write's
         m = rng.choice([1, 2, 4])
         sc["prior"].append({"frame": make_frame(cols, m, rng, kvals, jvals), "offsets": offsets(m, min(m, rng.choice([1, 2])))})
@@ -101,8 +104,22 @@ def do_write(root, sc, frame, offs, append, rec=None):
     kw = {}
     if rec is not None:
         kw = {"open_with": rec.open_with, "mkdirs": rec.mkdirs}
-    write(root, to_df(frame, sc["columns"]), file_scheme="hive", partition_on=list(sc["partition_on"]),
-          row_group_offsets=list(offs), append=append, compression=sc["compression"], stats=sc["stats"], **kw)
+        if sc.get("opener") == "fs":
+            kw["open_with"] = dsfs.rec_fs(rec).open
+    addr = sc.get("addr", "abs") if rec is not None else "abs"
+    cwd = os.getcwd()
+    try:
+        if addr in ("rel", "dot"):
+            os.chdir(os.path.dirname(root))
+            target = os.path.basename(root) if addr == "rel" else "./" + os.path.basename(root)
+        elif addr == "url" and sc.get("opener") == "fs":
+            target = "file://" + root
+        else:
+            target = root
+        write(target, to_df(frame, sc["columns"]), file_scheme="hive", partition_on=list(sc["partition_on"]),
+              row_group_offsets=list(offs), append=append, compression=sc["compression"], stats=sc["stats"], **kw)
+    finally:
+        os.chdir(cwd)
 
 
 def fresh_read(root, rec=None):
@@ -413,6 +430,7 @@ def run(ctx):
                          sf["step"] + 1, "raised " + sf["raised"] if sf["raised"] else "returned normally", sf["read"], sf["rows_read"],
                          sf["rows_expected"], sf["read_detail"] or ""))
             continue
+        ctx.count("addressing", "%s/%s" % (sc.get("addr", "abs"), sc.get("opener", "callable")))
         ctx.count("partition_columns", len(sc["partition_on"]))
         ctx.count("new_row_groups", sc["new_parts"])
         ctx.count("prior_appends", len(sc["prior"]))
